@@ -6,7 +6,10 @@
 
    One atomic step of the model = one critical section / one externally visible action of the C code:
      P_start t        prepare_shmem_buffer: two buffers, REC_START(0), flag[0] = RECORDING|NEW
-     P_emit t r ok    one record through get_shmem_buffer (+ finish_shmem_buffer + get_new_shmem_buffer
+     P_emit t r pad ok  one record through get_shmem_buffer (+ finish_shmem_buffer + get_new_shmem_buffer
+                      [r = the bytes by which `size` advances, pad = how many of them are 8-byte alignment
+                       padding that the size test of get_shmem_buffer does not count: record_ret_stack asks
+                       for 16 + argsize bytes and then advances by 16 + ALIGN (argsize, 8)]
                       when the record does not fit); ok = answer of allocate_shmem_buffer if it is asked
      P_addlost t n    record_trace_data: `losts += count - 1` after a failed parent ENTRY
      P_finish t       shmem_finish (thread exit)
@@ -221,10 +224,10 @@ Definition p_start (s : st) (t : tid) : option st :=
     Some (set_chan s5 (chan s5 ++ [MStart (t, 0)]))
   else None.
 
-Definition p_emit (c : cfg) (s : st) (t : tid) (r : rec) (ok : bool) : option st :=
+Definition p_emit (c : cfg) (s : st) (t : tid) (r : rec) (pad : nat) (ok : bool) : option st :=
   if p_live s t then
     match curr s t with
-    | Some i => if size s (t, i) + length r <=? maxsize c then Some (append_rec s t i r)
+    | Some i => if size s (t, i) + (length r - pad) <=? maxsize c then Some (append_rec s t i r)
                 else (* finish_shmem_buffer(curr); get_new_shmem_buffer overwrites curr in every case *)
                   let s0 := set_chan s (chan s ++ [MEnd (t, i)]) in
                   Some (switch (set_curr s0 (updt (curr s0) t None)) t r ok)
@@ -379,7 +382,7 @@ Definition m_rem1 (s : st) : option st :=
   else None.
 
 Inductive label :=
-| P_start (t : tid) | P_emit (t : tid) (r : rec) (ok : bool) | P_addlost (t : tid) (n : N) | P_finish (t : tid)
+| P_start (t : tid) | P_emit (t : tid) (r : rec) (pad : nat) (ok : bool) | P_addlost (t : tid) (n : N) | P_finish (t : tid)
 | M_msg
 | W_pick (w : nat) | W_write (w : nat) | W_release (w : nat) | W_splice (w : nat)
 | M_stop | M_join | M_flush1 | M_rem1.
@@ -387,7 +390,7 @@ Inductive label :=
 Definition step (c : cfg) (s : st) (l : label) : option st :=
   match l with
   | P_start t => p_start s t
-  | P_emit t r ok => p_emit c s t r ok
+  | P_emit t r pad ok => p_emit c s t r pad ok
   | P_addlost t n => p_addlost s t n
   | P_finish t => p_finish s t
   | M_msg => m_msg s
@@ -448,18 +451,21 @@ Definition ok_c03 (logs : list (list pev)) (files : list (list byte)) (reported 
 (* ------------------------------------------------------------------ the tie: scripts of operations
    One `op` = one command given to the two harness processes; `exec_op` expands it into labels
    (using the state, as the C control flow does) and runs them. *)
-Record frame := { fk : N; ftime : N; fwritten : bool }.
+Record frame := { fk : N; ftime : N; fwritten : bool; fpl : list byte (* argument payload, unpadded *) }.
 Record drv := {
-  stacks : tid -> list frame;     (* rstack of each thread, top first (plain configuration) *)
+  stacks : tid -> list frame;     (* rstack of each thread, top first (no filters) *)
   failn : nat;                    (* SHMFAIL: how many of the next allocations fail *)
-  base : N                        (* address of f0 in the producer harness *)
+  base : N;                       (* address of f0 in the producer harness *)
+  img : bufid -> list byte        (* bytes last stored in the data area of each shm object (missing = 0):
+                                     the alignment padding behind a payload is not written by the producer
+                                     and keeps what was there *)
 }.
-Definition drv0 (b : N) : drv := {| stacks := fun _ => []; failn := 0; base := b |}.
+Definition drv0 (b : N) : drv := {| stacks := fun _ => []; failn := 0; base := b; img := fun _ => [] |}.
 Definition set_stack (d : drv) (t : tid) (l : list frame) : drv :=
-  {| stacks := updt (stacks d) t l; failn := failn d; base := base d |}.
+  {| stacks := updt (stacks d) t l; failn := failn d; base := base d; img := img d |}.
 
 Inductive op :=
-| OpE (t : tid) (k time : N)     (* mcount_entry of f<k> in thread t *)
+| OpE (t : tid) (k time : N) (pl : list byte)   (* mcount_entry of f<k> in thread t, saved argument bytes *)
 | OpX (t : tid) (time : N)       (* mcount_exit in thread t *)
 | OpEnd (t : tid)                (* thread exit: mtd_dtor -> shmem_finish *)
 | OpFail (n : nat)               (* the next n shm_open(O_CREAT) fail *)
@@ -468,28 +474,56 @@ Inductive op :=
 | OpDrain | OpStop | OpJoin | OpFlush
 | OpSettle.                      (* model only: every busy writer runs until it is idle *)
 
-(* will this P_emit ask allocate_shmem_buffer? *)
-Definition will_alloc (c : cfg) (s : st) (t : tid) (r : rec) : bool :=
+(* will this P_emit (size test on chk bytes) ask allocate_shmem_buffer? *)
+Definition will_alloc (c : cfg) (s : st) (t : tid) (chk : nat) : bool :=
   let need := match curr s t with
-              | Some i => negb (size s (t, i) + length r <=? maxsize c)
+              | Some i => negb (size s (t, i) + chk <=? maxsize c)
               | None => true
               end in
   need && match find_free s t with None => true | Some _ => false end.
 
-(* one record through P_emit with the SHMFAIL counter as oracle; returns success *)
-Definition emit1 (c : cfg) (sd : st * drv) (t : tid) (r : rec) : option (st * drv * bool) :=
+(* where a record whose size test asks for chk bytes will be stored: (buffer index, offset, fresh object) *)
+Definition landing (c : cfg) (s : st) (t : tid) (chk : nat) : nat * nat * bool :=
+  let off0 := if (losts s t =? 0)%N then 0 else 16 in
+  match curr s t with
+  | Some i => if size s (t, i) + chk <=? maxsize c then (i, size s (t, i), false)
+              else match find_free s t with Some idx => (idx, off0, false) | None => (nbuf s t, off0, true) end
+  | None => match find_free s t with Some idx => (idx, off0, false) | None => (nbuf s t, off0, true) end
+  end.
+Fixpoint nth_bytes (l : list byte) (off n : nat) : list byte :=   (* l[off .. off+n), 0 where l ends *)
+  match n with 0 => [] | S n' => nth off l 0%N :: nth_bytes l (S off) n' end.
+
+(* one record (16-byte header ++ unpadded payload) through P_emit with the SHMFAIL counter as oracle;
+   returns success *)
+Definition emit1 (c : cfg) (sd : st * drv) (t : tid) (hp : list byte) : option (st * drv * bool) :=
   let '(s, d) := sd in
-  let asks := will_alloc c s t r in
+  let chk := length hp in
+  let pad := (8 - chk mod 8) mod 8 in
+  let asks := will_alloc c s t chk in
   let ok := negb asks || (failn d =? 0) in
-  let d' := if asks && negb (failn d =? 0) then {| stacks := stacks d; failn := pred (failn d); base := base d |} else d in
-  match p_emit c s t r ok with
-  | Some s' => Some (s', d', match curr s' t with Some _ => true | None => false end)
+  let fl := if asks && negb (failn d =? 0) then pred (failn d) else failn d in
+  let '(idx, off, fresh) := landing c s t chk in
+  let old := if fresh then [] else img d (t, idx) in
+  let r := hp ++ nth_bytes old (off + chk) pad in
+  match p_emit c s t r pad ok with
+  | Some s' =>
+      match curr s' t with
+      | Some i => let now := bytes_of (data s' (t, i)) in
+                  Some (s', {| stacks := stacks d; failn := fl; base := base d;
+                               img := upd (img d) (t, i) (now ++ skipn (length now) (if Nat.eqb i idx then old else img d (t, i))) |}, true)
+      | None => Some (s', {| stacks := stacks d; failn := fl; base := base d; img := img d |}, false)
+      end
   | None => None
   end.
 
 Definition faddr (d : drv) (k : N) : N := (base d + 256 * k + 4)%N.
+(* header + payload of the ENTRY record of a frame (more bit set when arguments were saved) *)
+Definition entry_hp (d : drv) (f : frame) (dep : N) : list byte :=
+  le_bytes 8 (ftime f)
+  ++ le_bytes 8 (rec_word UFTRACE_ENTRY dep (faddr d (fk f)) + (if is_nil (fpl f) then 0 else 4))%N
+  ++ fpl f.
 
-(* record_trace_data at the exit of the top frame (plain configuration: nothing was written at entry):
+(* record_trace_data at the exit of the top frame (no filters: nothing was written at entry):
    ENTRY of every not yet written frame from the outermost one, then ENTRY and EXIT of the top frame;
    stop at the first failure; a failing parent ENTRY adds count-1 to losts *)
 Fixpoint unwritten_prefix (l : list frame) : list frame :=   (* l: top first; frames below top that are unwritten *)
@@ -503,7 +537,7 @@ Fixpoint emit_parents (c : cfg) (sd : st * drv) (t : tid) (ps : list (frame * N)
   match ps with
   | [] => Some (sd, 0, true)
   | (f, dep) :: r =>
-      match emit1 c sd t (enc_rec (ftime f) UFTRACE_ENTRY dep (faddr (snd sd) (fk f))) with
+      match emit1 c sd t (entry_hp (snd sd) f dep) with
       | Some (s', d', true) =>
           match emit_parents c (s', d') t r (pred count) with
           | Some (sd2, n, okk) => Some (sd2, S n, okk)
@@ -520,7 +554,7 @@ Fixpoint emit_parents (c : cfg) (sd : st * drv) (t : tid) (ps : list (frame * N)
 
 Fixpoint mark_written (n : nat) (l : list frame) : list frame :=   (* l: outermost first *)
   match n, l with
-  | S n', f :: r => {| fk := fk f; ftime := ftime f; fwritten := true |} :: mark_written n' r
+  | S n', f :: r => {| fk := fk f; ftime := ftime f; fwritten := true; fpl := fpl f |} :: mark_written n' r
   | _, _ => l
   end.
 
@@ -546,7 +580,7 @@ Definition exec_exit (c : cfg) (s : st) (d : drv) (t : tid) (time : N) : option 
           let addr := faddr d1 (fk top) in
           let after_entry :=
             if fwritten top then Some (s1, d2, true)
-            else emit1 c (s1, d2) t (enc_rec (ftime top) UFTRACE_ENTRY dep addr) in
+            else emit1 c (s1, d2) t (entry_hp d2 top dep) in
           match after_entry with
           | Some (s2, d3, true) =>
               match emit1 c (s2, d3) t (enc_rec time UFTRACE_EXIT dep addr) with
@@ -615,15 +649,15 @@ Definition settle (s : st) : st :=
 Definition exec_op (c : cfg) (sd : st * drv) (o : op) : option (st * drv) :=
   let '(s, d) := sd in
   match o with
-  | OpE t k time =>
+  | OpE t k time pl =>
       let s1 := if nbuf s t =? 0 then p_start s t else Some s in
       match s1 with
-      | Some s1 => Some (s1, set_stack d t ({| fk := k; ftime := time; fwritten := false |} :: stacks d t))
+      | Some s1 => Some (s1, set_stack d t ({| fk := k; ftime := time; fwritten := false; fpl := pl |} :: stacks d t))
       | None => None
       end
   | OpX t time => exec_exit c s d t time
   | OpEnd t => match p_finish s t with Some s' => Some (s', d) | None => None end
-  | OpFail n => Some (s, {| stacks := stacks d; failn := n; base := base d |})
+  | OpFail n => Some (s, {| stacks := stacks d; failn := n; base := base d; img := img d |})
   | OpM => match chan s with [] => Some (s, d) | _ => match m_msg s with Some s' => Some (s', d) | None => None end end
   | OpW w => match exec_w s w with Some s' => Some (s', d) | None => None end
   | OpDrain => Some (iter_opt (length (chan s)) m_msg s, d)
